@@ -777,6 +777,8 @@ void ScriptEmitter::EmitCatch(sval_t val, const opval_t* try_begin_code_pos, sou
 
     ScriptCountManager countManager;
     ScriptEmitter emitter(countManager, stateScript, info);
+    emitter.canBreak = canBreak;
+    emitter.canContinue = canContinue;
     emitter.EmitRoot(val);
 
     const sizeInfo_t& info = countManager.getSizeInfo();
@@ -1611,6 +1613,7 @@ void ScriptEmitter::EmitSwitch(sval_t val, sourceLocation_t sourceLoc)
     ScriptCountManager countManager;
     ScriptEmitter emitter(countManager, stateScript, info);
     emitter.canBreak = true;
+    emitter.canContinue = canContinue;
     emitter.switchDepth = 1;
     emitter.EmitRoot(val);
 
